@@ -215,6 +215,9 @@ int snoopy_configfile_parseValue_filter_chain (
     const char *confValString,
     snoopy_configuration_t* CFG
 ) {
+    if (SNOOPY_TRUE == CFG->filter_chain_malloced) {
+        free(CFG->filter_chain);   // Duplicate option in config file - release the previous value
+    }
     CFG->filter_chain          = strdup(confValString);
     CFG->filter_chain_malloced = SNOOPY_TRUE;
 
@@ -248,6 +251,9 @@ int snoopy_configfile_parseValue_message_format (
     const char *confValString,
     snoopy_configuration_t* CFG
 ) {
+    if (SNOOPY_TRUE == CFG->message_format_malloced) {
+        free(CFG->message_format);   // Duplicate option in config file - release the previous value
+    }
     CFG->message_format          = strdup(confValString);
     CFG->message_format_malloced = SNOOPY_TRUE;
 
@@ -293,8 +299,6 @@ int snoopy_configfile_parseValue_output (
     colonPtr = strchr(confVal, ':');
     if (NULL == colonPtr) {
         outputName = confVal;
-        CFG->output_arg          = "";
-        CFG->output_arg_malloced = SNOOPY_FALSE;
         outputArg  = "";
     } else {
         // Separate output name from its arguments at the first ':'
@@ -305,17 +309,27 @@ int snoopy_configfile_parseValue_output (
         outputArgFound = SNOOPY_TRUE;
     }
 
+    // Release the values set by a previous occurrence of this option
+    if (SNOOPY_TRUE == CFG->output_malloced) {
+        free(CFG->output);
+        CFG->output_malloced = SNOOPY_FALSE;
+    }
+    if (SNOOPY_TRUE == CFG->output_arg_malloced) {
+        free(CFG->output_arg);
+        CFG->output_arg_malloced = SNOOPY_FALSE;
+    }
+
     // Determine output name
     if (SNOOPY_TRUE == snoopy_outputregistry_doesNameExist(outputName)) {
         CFG->output          = strdup(outputName);
         CFG->output_malloced = SNOOPY_TRUE;
 
         if (SNOOPY_TRUE == outputArgFound) {
-            // THINK What if conf.output_arg was set in previous call to this function,
-            // and is already malloced? We need to detect that and free previous
-            // allocation.
             CFG->output_arg          = strdup(outputArg);
             CFG->output_arg_malloced = SNOOPY_TRUE;
+        } else {
+            CFG->output_arg          = "";
+            CFG->output_arg_malloced = SNOOPY_FALSE;
         }
     } else {
         CFG->output              = SNOOPY_OUTPUT_DEFAULT;
@@ -420,6 +434,9 @@ int snoopy_configfile_parseValue_syslog_ident (
     const char *confValString,
     snoopy_configuration_t* CFG
 ) {
+    if (SNOOPY_TRUE == CFG->syslog_ident_format_malloced) {
+        free(CFG->syslog_ident_format);   // Duplicate option in config file - release the previous value
+    }
     CFG->syslog_ident_format          = strdup(confValString);
     CFG->syslog_ident_format_malloced = SNOOPY_TRUE;
 
